@@ -317,11 +317,27 @@ class Caller(object):
             allocations = r[1]
             radius = [0, 1, 2, 3, 20][t.draw(5)]
             label = "route[r=%d]" % radius
-            r = self.guarded(label, ner.route,
-                             (vr, nets, machine, constraints, placements,
-                              allocations, par.Cores, radius), {},
-                             [vr, nets, machine, constraints, placements,
-                              allocations])
+            how = t.weighted([5, 1, 1, 1]) if kind == "route" else 0
+            if how == 0:
+                r = self.guarded(label, ner.route,
+                                 (vr, nets, machine, constraints, placements,
+                                  allocations, par.Cores, radius), {},
+                                 [vr, nets, machine, constraints, placements,
+                                  allocations])
+            else:
+                # the optional allocations argument left out, empty, or
+                # covering only some of the vertices
+                some = {} if how == 2 else {
+                    v: a for v, a in allocations.items()
+                    if prgen.vid(v) % 2}
+                label += ["", "[no allocations]", "[allocations={}]",
+                          "[partial allocations]"][how]
+                args = (vr, nets, machine, constraints, placements)
+                if how != 1:
+                    args += (some,)
+                r = self.guarded(label, ner.route, args, {"radius": radius},
+                                 [vr, nets, machine, constraints, placements,
+                                  some])
             if kind == "route" or r[0] != "ok":
                 return label, self.norm(r)
             routes = r[1]
